@@ -420,6 +420,17 @@ def compare_trace(trace, impl_steps, model_steps, project=None):
             return {"k": k, "what": "model stopped (panic: %s)" % (prev[-1]["panics"] if prev else "?"),
                     "impl": canon_step(s, srv)}
         ci, cm = canon_step(s, srv), canon_step(m, srv)
+        if ev and ev[0] == "B":
+            # several lines in one segment that end in the connection's own close: lines still queued in its
+            # mpsc channel (relays, also of its own commands) are dropped with the connection; only what the
+            # handler wrote directly (numerics, ERROR) is certain to have been flushed
+            for side in (ci, cm):
+                for c in (side.get("eof") or []):
+                    o = side.get("out") or {}
+                    if str(c) in o:
+                        o[str(c)] = [l for l in o[str(c)] if isinstance(l, str) and (l.startswith(":" + srv + " ") or l.startswith("ERROR"))]
+                        if not o[str(c)]:
+                            del o[str(c)]
         if project:
             ci, cm = project(ci, ev), project(cm, ev)
         for key in ("panics", "stall", "eof", "out"):
